@@ -80,6 +80,10 @@ class TriggerContext:
                     self.callbacks.append(new_callback)
             except Exception:
                 deep.logging.exception("failed to process result {}", result)
+        # the results point at their action contexts, which point back at us (and so at the frame): let go of them, else
+        # this cycle keeps the paused frame's values alive until the next garbage collection and the application's
+        # objects are finalised later than they are without us
+        self.__results = []
 
     @property
     def id(self):
